@@ -701,7 +701,9 @@ def oracle(prop, case, out):
                     fails.append(("evals", "order %d: evaluation counts differ from order 0" % k))
         elif exe and o["runerr"]:
             fails.append(("streams", "order %d: the built graph failed to run" % k))
-    if len(verdicts) > 1:
+    # two different statement-time refusals (self dependency, rebind) in one malformed program surface in
+    # whichever order the statements run: not a property of the dataflow.  Everything else must not vary.
+    if len(verdicts) > 1 and not verdicts <= {4, 6, 8}:
         fails.append(("verdict_varies", "verdicts differ across statement orders: %s" % sorted(verdicts)))
     if len(counts) > 1:
         fails.append(("count_varies", "node counts differ across statement orders: %s" % sorted(counts)))
